@@ -585,20 +585,26 @@ def parseNot (st : State) (f : PFmt) (actions : List PyVal) (pred : PyVal) : Exc
     | _ => .error .value
   | .AX => pure (⟨pred, .none, kwargs⟩, st.rng)
 
+/-- the last step of the row-major branch: `body` holds one answer per row without kwargs and hint (`bodyV` is the
+Python object holding them) -/
+def finishRows (s : Nat) (k : Kind) (rows : List (List PyVal)) (body : List PyVal) (bodyV kwargs : PyVal) :
+    Except Err (Result × Nat) :=
+  match k with
+  | .PM => do
+    let (s', A, P) ← choicewRows s rows body
+    if A.isEmpty then .error .value else pure (⟨.list .tmp A, .list .tmp P, kwargs⟩, s')
+  | .AX => pure (⟨bodyV, noneList body.length, kwargs⟩, s)
+  | .AP => do
+    let (A, P) ← unzipPairs body
+    pure (⟨A, P, kwargs⟩, s)
+
 def parseRow (st : State) (f : PFmt) (rows : List (List PyVal)) (pred : PyVal) : Except Err (Result × Nat) := do
   let ps ← itemsE pred
   let kws ← (if st.hasKw then mapE (fun p => getLast p) ps else pure (ps.map (fun _ => PyVal.dict .tmp [] [])))
   let kwargs ← kwColumns kws
   let (body, bodyV) ← (if st.hasKw then do let b ← mapE rowBody ps; pure (b, PyVal.list .tmp b) else pure (ps, pred))
   let (body, bodyV) ← (if f.star then do let b ← mapE firstValue body; pure (b, PyVal.list .tmp b) else pure (body, bodyV))
-  match f.kind with
-  | .PM => do
-    let (s', A, P) ← choicewRows st.rng rows body
-    if A.isEmpty then .error .value else pure (⟨.list .tmp A, .list .tmp P, kwargs⟩, s')
-  | .AX => pure (⟨bodyV, noneList body.length, kwargs⟩, st.rng)
-  | .AP => do
-    let (A, P) ← unzipPairs body
-    pure (⟨A, P, kwargs⟩, st.rng)
+  finishRows st.rng f.kind rows body bodyV kwargs
 
 def parseCol (fx : Fixes) (st : State) (f : PFmt) (rows : List (List PyVal)) (pred : PyVal) : Except Err (Result × Nat) := do
   let kwargs ← (if st.hasKw then getLast pred else pure (.dict .tmp [] []))
@@ -922,5 +928,114 @@ def stAfter (sp : Spec) (batched : Bool) (st : State) (rng : Nat) : State :=
 /-- the SafeLearner is fresh, or has already answered calls of this learner (same batching) -/
 def Inv (sp : Spec) (batched : Bool) (st : State) : Prop :=
   (st.method = Option.none ∧ st.layout = Option.none) ∨ st = stAfter sp batched st st.rng
+
+/-! ### side conditions (decidable): the learner is inside the property's quantifier -/
+
+/-- a top-level object built by a learner, or by SafeLearner while parsing (not an object the environment offered,
+nor one of the float copies) -/
+def isLrn : PyVal → Bool
+  | .flt (.lrn _) _ | .str (.lrn _) _ | .tuple (.lrn _) _ | .list (.lrn _) _ | .dict (.lrn _) _ _ => true
+  | .flt .tmp _ | .str .tmp _ | .tuple .tmp _ | .list .tmp _ | .dict .tmp _ _ => true
+  | _ => false
+
+/-- a PMF over the actions: numeric, non-negative, summing to one -/
+def validPmf (pmf : List PyVal) (as : List PyVal) : Bool :=
+  pmf.length == as.length &&
+  (match sumNums pmf with | some s => s == 1 | Option.none => false) &&
+  pmf.all (fun x => match x.num with | some q => decide (0 ≤ q) | Option.none => false)
+
+/-- an answer long enough for the pinned `pred_format` (which takes 0/1-item answers for already wrapped and indexes
+two-item dicts with [0]); irrelevant once fixes/C15-pred-format-short-answers.diff is applied -/
+def longEnough : PyVal → Bool
+  | .dict _ ks _ => decide (2 < ks.length)
+  | .tuple _ xs | .list _ xs => decide (2 ≤ xs.length)
+  | _ => true
+
+/-- `isinstance(v[-1], Mapping)` -/
+def lastIsDict (v : PyVal) : Bool := match getLast v with | .ok x => x.isDict | .error _ => false
+
+/-- The answer to the FIRST row of the FIRST call can be read in one way only (it is what the layout / kwargs / format
+detection looks at).  Un-hinted answers:
+* bare action: the action is not itself shaped like a hinted answer (a dict with a feature named action/action_prob/pmf),
+  like an answer with kwargs (a sequence ending in a dict), or like (action, prob) (two items, the first of which IS an
+  offered action);
+* PMF: a PMF over the offered actions whose first entry (when there are two) is not one of the offered objects.
+`fx.short = false` additionally excludes the answers the pinned `pred_format` mishandles (recorded defect C15-F1). -/
+def firstRowOK (fx : Fixes) (sp : Spec) (ans : Answer) (as : List PyVal) : Bool :=
+  decide (ans.pick < as.length) && as.all (fun a => !isLrn a) &&
+  (match sp.fmt with
+   | .A =>
+     let a := ans.action as
+     (sp.kw || !lastIsDict a) && !isHint a &&
+       (match a.items with | some [x, _] => !as.any (fun b => pyIs x b) | _ => true) &&
+       (fx.short || longEnough a)
+   | .AP => !ans.p.isDict
+   | .PM =>
+     validPmf ans.pmf as && (match ans.pmf with | [x, _] => !as.any (fun b => pyIs x b) | _ => true) &&
+       (fx.short || decide (2 ≤ ans.pmf.length))
+   | .dA => true
+   | .dAP => true
+   | .dPM => ans.pmf.length == as.length)
+
+end Coba.C15
+
+namespace Coba.C15
+
+/-- the rows of one batch give kwargs with the same keys (as `kwargs[0]` decides the keys for the whole batch) -/
+def sameKeys (rows : List (Answer × List PyVal)) : Bool :=
+  match rows with
+  | [] => true
+  | (a0, _) :: _ =>
+    rows.all (fun r => r.1.kwKeys == a0.kwKeys && r.1.kwVals.length == r.1.kwKeys.length)
+
+end Coba.C15
+
+namespace Coba.C15
+
+/-- `x` (a parsed batch and the rng state) delivers what `w` demands; an error of `CobaRandom.choicew` (a PMF that
+is no PMF) comes out as that error -/
+def DeliversN (x : Except Err (Result × Nat)) (w : Except Err (BatchView × Nat)) : Prop :=
+  match w with
+  | .ok (v, s') => ∃ r, x = .ok (r, s') ∧ r.view = some v
+  | .error e => x = .error e
+
+def Delivers (x : Except Err (Result × State)) (w : Except Err (BatchView × Nat)) (stOf : Nat → State) : Prop :=
+  match w with
+  | .ok (v, s') => ∃ r, x = .ok (r, stOf s') ∧ r.view = some v
+  | .error e => x = .error e
+
+end Coba.C15
+
+namespace Coba.C15
+
+/-- two dicts with the same key set -/
+def keysSame : PyVal → PyVal → Bool
+  | .dict _ ks _, .dict _ ks' _ => ks.all (ks'.contains ·) && ks'.all (ks.contains ·)
+  | _, _ => false
+
+/-- Row-major bare sparse actions (a batch answered with a list of dicts): the pinned `raise_if_not_valid_out` /
+`batch_order` take a first and a last row with different feature names for `[{hint: column}, kwargs]` (recorded defect
+C15-F4); irrelevant once fixes/C15-sparse-rows-not-colkw.diff is applied. -/
+def dictRowsOK (fx : Fixes) (sp : Spec) (rows : List (Answer × List PyVal)) : Bool :=
+  fx.rowdict || !(sp.fmt == .A && !sp.kw) ||
+    (match rows.head?, rows.getLast? with
+     | some f, some l => !((f.1.action f.2).isDict && (l.1.action l.2).isDict) || keysSame (f.1.action f.2) (l.1.action l.2)
+     | _, _ => true)
+
+end Coba.C15
+
+namespace Coba.C15
+
+/-- column-major answers the pinned `_parse_pred` reads correctly ((action, prob) columns and hinted answers without
+kwargs); everything else needs fixes/C15-colmajor-parse.diff (recorded defect C15-F3) -/
+def colParseOK (fx : Fixes) (sp : Spec) : Bool :=
+  fx.col || sp.fmt == .AP || (sp.fmt.hinted && !sp.kw)
+
+/-- un-hinted column-major PMFs form a table: every row has the same number (≥ 1) of entries -/
+def pmfTable (sp : Spec) (rows : List (Answer × List PyVal)) : Bool :=
+  sp.fmt != .PM ||
+    (match rows with
+     | [] => true
+     | r :: _ => decide (0 < r.1.pmf.length) && rows.all (fun x => x.1.pmf.length == r.1.pmf.length))
 
 end Coba.C15
